@@ -553,6 +553,9 @@ class C04(flow.Spec):
                                         "message: " + msg[:300], f"replay: python3 check.py C04 --replay replays/C04/{name}"], c)
             ctx.violation(p, f"property fails on the implementation (deterministic scheduler, NDEBUG): {msg[:200]}", bool(c))
         cases = [c for c in getattr(self, "_cases0", []) if any(l == "go" or l.startswith("big") for l in c)]
+        # the long-prefix classes are many and slow under TSan: every 6th of them in these two stages
+        lp = [c for c in cases if c[0].startswith("case lp")]
+        cases = [c for c in cases if not c[0].startswith("case lp")] + lp[::6]
         for variant, label, sub in (("c04tsan", "tsan", 1), ("c04nd", "asan-ndebug", 2)):
             hb, log = build_c04(ctx, name=variant)
             if hb is None:
